@@ -42,6 +42,7 @@ import enum
 import io
 import json
 import itertools
+import urllib.parse
 
 from lxml import etree
 import werkzeug.exceptions
@@ -856,7 +857,8 @@ class WSGIApp:
         if "path" in url_args:
             redirect_url += url_args["path"] + "/"
         if request.query_string:
-            redirect_url += "?" + request.query_string.decode("ascii")
+            # the query string may contain raw non-ASCII bytes; keep them percent-encoded
+            redirect_url += "?" + urllib.parse.quote(request.query_string, safe="!$&'()*+,;=:@/?%~-._")
         return werkzeug.utils.redirect(redirect_url, 307)
 
     # ------ SUBMODEL REPO ROUTES -------
